@@ -36,6 +36,13 @@ Open Scope Q_scope.
 RULES = ['dtPSD', 'dtNucleation', 'dtTemperature', 'dtRcrit', 'dtVolume', 'getDt']
 
 
+class TieBroken(Exception):
+    """the harness cannot reach / observe what it needs (renamed private name, changed signature): not a failing input"""
+
+
+PLUMBING = (AttributeError, TypeError, NameError, KeyError, NotImplementedError, ImportError)
+
+
 @contextlib.contextmanager
 def quiet():
     with contextlib.redirect_stdout(io.StringIO()):
@@ -719,6 +726,10 @@ def oracle_fake(elements):
     try:
         with quiet():
             res = fake_sites(elements)
+    except PLUMBING as e:
+        # a private hook of the stand-in backend no longer fits (renamed helper, changed signature): the labelled backend
+        # cannot be driven any more - that is a broken tie of the harness, not an input on which kawin fails
+        raise TieBroken('labelled backend cannot drive the wrapper code: %s: %s' % (type(e).__name__, e))
     except Exception as e:
         return [('wrapper_equivariant', 'exception', 'wrapper code raised %s: %s for elements %r' % (type(e).__name__, e, elements))]
     for site, obs, exp in res:
@@ -837,8 +848,14 @@ def impl_sites(c, order):
     """{phase name: available nucleation sites} from the real _calcNucleationSites"""
     m, names = build_sites_model(c, order)
     x = [np.array(c['phases'][nm]['psd']) for nm in names]
+    fn = getattr(m, '_calcNucleationSites', None)          # private: there is no public way to read the available sites
+    if fn is None:
+        raise TieBroken('PrecipitateModel has no _calcNucleationSites any more: available nucleation sites cannot be observed')
     with np.errstate(all='ignore'):
-        return {nm: float(m._calcNucleationSites(0.0, x, j)) for j, nm in enumerate(names)}, m, x
+        try:
+            return {nm: float(fn(0.0, x, j)) for j, nm in enumerate(names)}, m, x
+        except TypeError as e:
+            raise TieBroken('_calcNucleationSites(t, x, p) cannot be called any more: %s' % e)
 
 
 def sites_term(c, impl_by_name, m, x):
@@ -1265,6 +1282,16 @@ def explore_db(ctx, quick):
 
 
 # ==========================================================================================
+def guarded(ctx, what, fn, default):
+    """a part of the harness that cannot reach what it observes reports a broken tie (no input), never a failing input"""
+    try:
+        return fn()
+    except TieBroken as e:
+        ctx.violation('harness_tie', {'site': what, 'cls': 'unreachable'}, {'broken': {'tie': str(e)}},
+                      '%s: %s' % (what, e), no_input=True)
+        return default
+
+
 def translate_and_bridge(ctx):
     """regenerate the Gallina text of the index idioms from the current source and re-prove the bridge"""
     import c11_translate
@@ -1313,7 +1340,7 @@ def run(ctx):
     for (names, clause, msg) in hits_a[:1]:
         ctx.violation('argsort', {'site': 'numpy.argsort', 'cls': 'rank'}, {'kind': 'names', 'input': {'names': names}, 'observed': msg}, msg)
     fake_cases = [c['input']['elements'] for c in corpus_raw('fake')]
-    hits_f = [(els,) + h for els in fake_cases for h in oracle_fake(els)] + explore_fake(ctx, 80 if quick else 600)
+    hits_f = guarded(ctx, 'labelled backend', lambda: [(els,) + h for els in fake_cases for h in oracle_fake(els)] + explore_fake(ctx, 80 if quick else 600), [])
     report_fake_hits(ctx, hits_f)
     ctx.notes['timing']['element_order_model'] = round(time.time() - t0, 1)
     t0 = time.time()
@@ -1364,7 +1391,7 @@ def run(ctx):
     ctx.notes['timing']['step_size_rules'] = round(time.time() - t0, 1)
     t0 = time.time()
     scases = [gen_sites_case(ctx.rng, i) for i in range(45 if quick else 600)]
-    dis_s, hits_s = explore_sites(ctx, scases)
+    dis_s, hits_s = guarded(ctx, 'nucleation sites', lambda: explore_sites(ctx, scases), ([], []))
     seen = set()
     for (c, clause, cls, msg) in hits_s:
         if (clause, cls) in seen:
@@ -1418,7 +1445,7 @@ def run(ctx):
     if tie_broken and not (hits_f or hits_db or hits_p or hits_sd or hits_r or hits or hits_s):
         # the code no longer matches the idioms the bridge theorems are about and no oracle (labelled backend, profiles,
         # databases, runs) shows a wrong value: search harder before giving up
-        more = explore_fake(ctx, 400)
+        more = guarded(ctx, 'labelled backend', lambda: explore_fake(ctx, 400), [])
         if more:
             report_fake_hits(ctx, more)
         else:
